@@ -16,7 +16,8 @@ EXPLANATION = (
     " (e) A received record set is kept iff some PTR in it is for a browsed type: the is_for_us flag is cleared only under !service_queriers.contains_key."
     " (f) Every retain on the shared rerun queue answers true for all commands of other kinds (a purge of one search cannot drop the Resolve follow-ups). (g) Every DnsCache function that removes records from the vectors of a map also drops the entries that became empty, so `get_addr(host).is_none()` / `get_srv(..)` mean 'missing'."
     " (h) ServiceEvent sends are lossless."
-    " (i) For a new PTR the instance recorded as changed is the PTR's alias; the A/AAAA follow-up is asked for DnsSrv::host() of the cached SRV, the ANY follow-up for the instance.")
+    " (i) For a new PTR the instance recorded as changed is the PTR's alias; the A/AAAA follow-up is asked for DnsSrv::host() of the cached SRV, the ANY follow-up for the instance."
+    " (j) The open-browse test of the follow-up reaches the instance through the cached PTR records (subtype browses). (k) ServiceResolved is decided per (browsed type, instance): no per-pass memo stands in front of the send.")
 UNDECIDED = ["'no later than the daemon's next scheduling step' (timing)", "behaviour under loss, duplication and reordering of packets",
              "escaping of instance names on the way in (value-level)", "records arriving in packets that are 'not for us' (is_for_us heuristics, value-level)"]
 
